@@ -630,7 +630,9 @@ func init() {
 				nd = 64
 			}
 			bs = append(bs, batches("dictionary", 8, nd, 3000)...)
-			bs = append(bs, batches("huge-limit", 1, 0, 3000)...)
+			hlb := batches("huge-limit", 1, 0, 900)
+			hlb[0].Slow = true // 4 GiB buffers: no hang verdict from timing
+			bs = append(bs, hlb...)
 			bs = append(bs, batches("entry-points", 1, 0, 3000)...)
 			return bs
 		},
